@@ -76,8 +76,8 @@ CLAIMS.update({
 PARSE_NOTE = ("Trusted: Coq kernel + VM; the hand-written model Model/Parser.v with Header.v, KV.v (kvRegex scanner), AVC.v, Trim.v, Hex.v (tied to auparse by the correspondence: the model's Data()/Tags() must equal the implementation's on every generated and spliced record, "
               "its parsed header on every generated and damaged line); generated tables (record types, errno, arch, syscalls, signal names); Go's time and net packages as oracles for the expected timestamp and IPv6 text. No axioms.")
 CLAIMS.update({
-    "C04": dict(text="Proof: C04_header_roundtrip (every S < 2^34, mmm < 1000, N < 2^32, any text without '(' in front and ANY text behind the header parse back to exactly S, mmm, N and the rest), C04_type_roundtrip (all 65536 record types, UNKNOWN[n] included). "
-                     "The glue (trimming, split at the first msg=, time.Unix arithmetic, ToMapStr's well-known keys, ParseLogLine/Parse agreement, rejection of damaged headers) is modelled and decided on every generated line against the implementation.",
+    "C04": dict(text="Proof: C04_header_roundtrip (every S < 2^34, mmm < 1000, N < 2^32, any text without '(' in front and ANY text behind the header parse back to exactly S, mmm, N and the rest), C04_type_roundtrip (all 65536 record types, UNKNOWN[n] included), C04_log_line_roundtrip (a whole line type=T msg=audit(S.mmm:N)rest, every T, S, mmm, N and any rest that survives trimming: ParseLogLine returns exactly T, the time in UTC seconds and nanoseconds, N and the raw text, through Parse on the text after the first msg=). "
+                     "ToMapStr's well-known keys, trimming of padded lines and the rejection of damaged headers are modelled and decided on every generated line against the implementation.",
                 note=PARSE_NOTE + " PARTIAL: trimming / ToMapStr / rejection of malformed headers have no theorem; the checker decides them per line.", technique="Coq round-trip proof of the header codec + exhaustive type sweep + correspondence", design="6 C04"),
     "C05": dict(text="Partial proof: C05_sockaddr_slices_in_range (every slice expression of parseSockaddr/hexToIP is inside the string, for every input), C05_hex_sound. The Gallina model of the whole Data() pipeline is total by construction and agrees with the implementation on every spliced record of every specially handled type; "
                      "the run itself checks no panic (recover), no hang (5 s deadline) and equal results on repeated Data/Tags/ToMapStr calls.",
